@@ -222,6 +222,20 @@ def run(rep, tier, seed):
                     resid(rep, sig, det, "A Q = Q diag(lambda)", tdot(A, Xd), tdot(Xd, diag_poly(ld, 2, 2)), sc)
                 if not numpy.array_equal(Au.data, A):
                     rep.violation(sig + " modifies its argument", det)
+                # the same matrix polynomial handed over as a transposed view (column-major coefficient slices): same factors, and
+                # the argument is still what it was (LAPACK wrappers work in place on Fortran-ordered input when allowed to)
+                fn = {"qr": algopy.qr, "qr_full": algopy.qr_full, "chol": algopy.cholesky, "lu3": algopy.lu, "eigh3": algopy.eigh, "svd32": algopy.svd}.get(
+                    "qr_full" if kind == "qr_full" else "qr" if kind.startswith("qr") else "chol" if kind.startswith("chol") else kind)
+                if fn is not None:
+                    base = UTPM(numpy.ascontiguousarray(numpy.swapaxes(A, 2, 3)))
+                    At = base.T
+                    r_c = fn(UTPM(A.copy())); r_f = fn(At)
+                    r_c = r_c if isinstance(r_c, tuple) else (r_c,); r_f = r_f if isinstance(r_f, tuple) else (r_f,)
+                    for k_, (a_, b_) in enumerate(zip(r_c, r_f)):
+                        if a_.data.shape != b_.data.shape or not numpy.allclose(a_.data, b_.data, rtol=1e-9, atol=1e-9 * sc):
+                            rep.violation(sig + ": transposed-view argument gives other factors", dict(det, factor=k_)); break
+                    if not numpy.array_equal(base.data, numpy.swapaxes(A, 2, 3)):
+                        rep.violation(sig + " modifies its (transposed-view) argument", det)
             except Exception as ex:
                 rep.violation(sig + " raises " + type(ex).__name__, dict(det, what=repr(ex)[-300:]))
     r0 = next(r for r in recs if r["kind"] == "qr2" and r["b"] == 3)
